@@ -340,6 +340,7 @@ def run_property(prop, tier, groups, meta, replay_fn=None, jobs=None):
     if viol:
         os.makedirs(rep_dir, exist_ok=True)
     printed = set()
+    pergroup = {}
     ntrace = 0
     for g, o in viol:
         code = 1
@@ -360,8 +361,12 @@ def run_property(prop, tier, groups, meta, replay_fn=None, jobs=None):
             json.dump(rep, f, indent=1)
         suffix = "" if (concrete and concrete.get("reproduced")) else " no-failing-input-found"
         line = "VIOLATION property=%s replay=%s%s" % (prop, path, suffix)
-        print(line)
-        print("  failed obligation: [%s] %s  (%s:%s, group %s)" % (o["id"], o["desc"][:200], o["file"], o["line"], g.name))
+        pergroup[g.name] = pergroup.get(g.name, 0) + 1
+        if pergroup[g.name] <= 8:
+            print(line)
+            print("  failed obligation: [%s] %s  (%s:%s, group %s)" % (o["id"], o["desc"][:200], o["file"], o["line"], g.name))
+        elif pergroup[g.name] == 9:
+            print("  ... further failed obligations of group %s are listed in the evidence file / replay directory" % g.name)
     seenk = set()
     for k, g, o in knownhit:
         if k["id"] not in seenk:
